@@ -172,7 +172,7 @@ func (sb *sandbox) rebuild() {
 	_ = os.Chdir("/")
 	makeRemovable(sb.R)
 	must(os.RemoveAll(sb.R))
-	for _, d := range []string{"out", "out2", "out-evil", "cwd", "tmp", "in", "tree"} {
+	for _, d := range []string{"out", "out2", "out-evil", "cwd", "tmp", "in", "tree", "outer/out"} {
 		must(os.MkdirAll(sb.dir(d), 0o755))
 	}
 	// decoys named like the temporary names the code uses
@@ -241,7 +241,7 @@ func relS(rp string) (area, rest string) {
 	r := rp[len(chain)+1:]
 	first, tail, _ := strings.Cut(r, "/")
 	switch first {
-	case "out", "out2", "out-evil", "cwd", "tmp", "in", "tree":
+	case "out", "out2", "out-evil", "cwd", "tmp", "in", "tree", "outer":
 		return first, tail
 	}
 	return "S", r
